@@ -2,6 +2,10 @@
 monitors evaluated on the implementation's observations, and the meaning of monitor violation codes."""
 
 KNOWN_CODES = {
+    501: 'a callback row on a missing or completed promise (a registration outlived its promise)',
+    502: 'two callbacks or two tasks with one id',
+    503: 'a registration disappeared without leaving its task',
+    506: 'a registration request was answered 20000 with the promise shown PENDING and no callback although its insert had lost against a completion: nothing is registered (D1)',
     101: 'a promise row disappeared, its creation fields / sort id changed, a completed row changed, or a pending row moved to a non-final state',
     102: 'two promise rows with one id',
     103: 'a response shows a promise body that differs from the durable row',
@@ -14,6 +18,14 @@ KNOWN_CODES = {
 }
 
 PROPS = {
+    'C05': {
+        'families': [('promise-race', 'sys', 100, 1000), ('promises', 'sys', 100, 1000), ('promises-crash', 'sys', 50, 500), ('tasks', 'sys', 60, 600)],
+        'monitors': ['C05_mon', 'C05x_mon'],
+        'statement': 'forall cfg sch, sch_wf sch -> C05_mon (events cfg sch) = []  (Props/C05.v: C05_holds_partial; the clause about the answer to a registration request, code 506, is evaluated on traces only)',
+        'assumptions': ['arriving CompletePromise requests name resolved/rejected/canceled', 'the acknowledgement clause (506) is decided on the explored schedules only'],
+        'level_text': 'Theorem C05_holds_partial: for every schedule of well-formed requests no callback row exists on a missing or completed promise (501), callback and task ids are unique (502) and a registration only disappears by leaving its task in the same commit (503); store theorem C05_completion_converts for arbitrary databases/arguments; derived-id injectivity proved under no-colon and refuted in general (D2). The clause about the answer to a registration request (506) is evaluated on every implementation trace (it found D1, repaired by a fix: commit).',
+        'level_note': 'Trusted: Coq kernel + vm_compute; harness/emitter; hand-written model of the Go coroutines (observation equality on explored schedules only); SQLite. No axioms. Partial: code 506 not proved for all schedules.',
+    },
     'C01': {
         'families': [('promise-race', 'sys', 100, 1000), ('promises', 'sys', 100, 1000), ('promises-crash', 'sys', 50, 500), ('tasks', 'sys', 50, 500)],
         'monitors': ['C01_mon'],
